@@ -831,6 +831,44 @@ pub fn gen_bundle(s: &mut Src<'_>, cfg: &GenCfg) -> GenBundle {
                     let msg = s.pick(&pools.msgs).clone();
                     let dst = spend_descriptor(dst_mode, &spends[k]);
                     let src = spend_descriptor(src_mode, &spends[i]);
+                    if !careful && s.chance(26) {
+                        // KEY-CONFUSION ATTACK: a send and a receive that do NOT
+                        // correspond, but whose (sender, receiver, message) byte
+                        // strings would coincide if the three components were
+                        // concatenated without delimiters in some other order
+                        // (message first / message in the middle). The counterpart
+                        // descriptor is free (it need not describe a real coin),
+                        // so the attacker controls every byte. Correct validation
+                        // rejects the bundle (message not sent/received).
+                        let x: u64 = ((s.u64() | (1 << 40)) >> 16) << 16; // low 16 bits zero
+                        let xb = x.to_be_bytes();
+                        let m = s.pick(&pools.msgs).clone();
+                        let variant = s.below(4);
+                        let mut m2 = m.clone();
+                        match variant & 1 {
+                            0 => {
+                                // message-first order: M 00 01 x0..x7  ==  M' 00 00
+                                m2.extend_from_slice(&[0x00, 0x01]);
+                                m2.extend_from_slice(&xb[..6]);
+                            }
+                            _ => {
+                                // message-in-the-middle order: 00 M 01 x0..x7  ==  00 M' 00
+                                m2.push(0x01);
+                                m2.extend_from_slice(&xb[..7]);
+                            }
+                        }
+                        labels.push("message:key-confusion-attack".into());
+                        if variant < 2 {
+                            // the SEND names its receiver by amount only; the RECEIVE commits to nothing
+                            plans[i].push(Plan::Send { mode: 0b000_001, msg: m, dst: vec![enc_u64(x)] });
+                            plans[k].push(Plan::Receive { mode: 0, msg: m2, src: vec![] });
+                        } else {
+                            // mirrored: the RECEIVE names its sender by amount only
+                            plans[k].push(Plan::Receive { mode: 0b001_000, msg: m, src: vec![enc_u64(x)] });
+                            plans[i].push(Plan::Send { mode: 0, msg: m2, dst: vec![] });
+                        }
+                        continue;
+                    }
                     let which = if careful { 0 } else { s.weighted(&[12, 2, 2, 1]) };
                     if which != 1 {
                         plans[i].push(Plan::Send { mode, msg: msg.clone(), dst });
